@@ -321,6 +321,8 @@ func (s *socket) MaybeUpgrade(transport transports.Transport) {
 	var check, cleanup func()
 	var onPacket, onError, onTransportClose, onClose events.Listener
 	var upgradeTimeoutTimer, checkIntervalTimer atomic.Pointer[utils.Timer]
+	// the candidate's probe has been answered (and the 'check' tick releases the pending poll)
+	var probed atomic.Bool
 
 	onPacket = func(datas ...any) {
 		data := datas[0].(*packet.Packet)
@@ -329,12 +331,13 @@ func (s *socket) MaybeUpgrade(transport transports.Transport) {
 		if data.Type == packet.PING && sb.String() == "probe" {
 			socket_log.Debug("got probe ping packet, sending pong")
 			transport.Send([]*packet.Packet{{Type: packet.PONG, Data: strings.NewReader("probe")}})
+			probed.Store(true)
 			s.Emit("upgrading", transport)
 
 			utils.ClearInterval(checkIntervalTimer.Load())
 			checkIntervalTimer.Store(utils.SetInterval(check, 100*time.Millisecond))
 
-		} else if packet.UPGRADE == data.Type && s.ReadyState() != "closed" {
+		} else if packet.UPGRADE == data.Type && probed.Load() && s.ReadyState() != "closed" {
 			socket_log.Debug("got upgrade packet - upgrading")
 			cleanup()
 			s.Transport().Discard()
